@@ -48,10 +48,10 @@ type tcall struct {
 }
 
 type tsummary struct {
-	calls      []tcall
+	calls       []tcall
 	returnsDesc bool // a descended element is returned
-	readsStore bool // a container field of the parameter itself (not descended) is read
-	field      string
+	readsStore  bool // a container field of the parameter itself (not descended) is read
+	field       string
 }
 
 type recHit struct {
